@@ -13,6 +13,9 @@ from the identical pre-state:
       on the real members without the model — no member outside the routed ones changes, no
       call reaches a member that does not own the path,
   (c) the result (value / exception class) == the model's.
+Operations: the reference operations of fsharness, plus `scandir`, `validatepath`, `readtext`, `download`,
+`writetext` and `open <path> <mode> [data]` (open, write the data once through the file object, close; text and
+binary flavours of r, r+, w, a, x).
 Exhaustive part: `MountFS._delegate` / `mount` against the model for all paths of <= 4
 components over {a, ab, b, .., .} and all mount tables over {/a, /ab, /a/b, /};
 `MultiFS.iterate_fs` for all priority vectors over {-1, 0, 1} up to length 4.
@@ -30,8 +33,11 @@ LEANCHECKER_MODULES = ["FsProofs.C17", "FsProofs.Lemmas.RouteLemmas"]
 
 NAMES = ["a", "ab", "b", "c", "d.e", " f"]
 BULK = {"removetree", "movedir", "copydir"}
-CREATING = {"makedir", "makedirs", "writebytes", "appendbytes", "create", "touch", "settimes", "copy"}
-READS = {"exists", "isdir", "isfile", "getsize", "gettype", "getinfo", "readbytes"}
+CREATING = {"makedir", "makedirs", "writebytes", "appendbytes", "create", "touch", "settimes", "copy", "writetext"}
+READS = {"exists", "isdir", "isfile", "getsize", "gettype", "getinfo", "readbytes", "readtext", "download"}
+# `open(path, mode)`: r, r+, w, a, x in text and binary flavours (and a few strings Mode() rejects)
+OPEN_MODES = ["r", "rb", "rt", "r+", "r+b", "rb+", "r+t", "w", "wb", "wt", "w+", "a", "ab", "at", "a+b", "x", "xb", "xt",
+              "rw", "z", "", "+r", "rbt"]
 MUTATING_METHODS = {
     "makedir", "makedirs", "remove", "removedir", "removetree", "setinfo", "settimes", "upload", "writebytes",
     "writetext", "writefile", "appendbytes", "appendtext", "create", "touch", "move", "copy", "movedir",
@@ -294,7 +300,8 @@ class Composite:
 
 def apply(top, log, op):
     """H.apply_op, except: listings keep their order; getsize makes no extra call;
-    two primitive-level extras (`scandir`, `validatepath`)."""
+    primitive-level extras: `scandir`, `validatepath`, `open <path> <mode> [data]` (open, write once,
+    close), `readtext`, `download`, `writetext`."""
     name = op[0]
 
     def go():
@@ -305,6 +312,26 @@ def apply(top, log, op):
         if name == "validatepath":
             top.validatepath(op[1])
             return "unit"
+        if name == "open":
+            # open, optionally write the data once (text flavour: as str), close
+            f = top.open(op[1], op[2])
+            try:
+                if op[3] is not None and writable_mode(op[2]):
+                    f.write(op[3] if "b" in op[2] else op[3].decode("ascii"))
+            finally:
+                f.close()
+            return "unit"
+        if name == "readtext":
+            return "bytes:" + hx(top.readtext(op[1], encoding="latin-1").encode("latin-1"))
+        if name == "download":
+            import io
+
+            buf = io.BytesIO()
+            top.download(op[1], buf)
+            return "bytes:" + hx(buf.getvalue())
+        if name == "writetext":
+            top.writetext(op[1], op[2].decode("ascii"))
+            return "unit"
         if name == "getsize":
             n = top.getsize(op[1])
             k = len(log)
@@ -313,7 +340,7 @@ def apply(top, log, op):
             return "nat:%d" % (n if isf else 0)
         return None
 
-    if name in ("listdir", "scandir", "validatepath", "getsize"):
+    if name in ("listdir", "scandir", "validatepath", "getsize", "open", "readtext", "download", "writetext"):
         try:
             return ("ok", H.with_watchdog(go, 10))
         except BaseException as e:  # noqa
@@ -326,11 +353,27 @@ def apply(top, log, op):
 def op_args(op):
     a = [op[0]]
     for x in op[1:]:
+        if x is None:
+            continue  # `open` without data
         if isinstance(x, bool):
             a.append("1" if x else "0")
         else:
             a.append(hx(x))
     return " ".join(a)
+
+
+def fix_op(op):
+    """ops loaded from JSON: data arguments back to bytes"""
+    op = tuple(op)
+    if op[0] == "open" and isinstance(op[3], str):
+        return op[:3] + (op[3].encode("latin-1"),)
+    if op[0] == "writetext" and isinstance(op[2], str):
+        return op[:2] + (op[2].encode("latin-1"),)
+    return H.fix_op_bytes(op)
+
+
+def gen_ascii(rng):
+    return bytes(rng.choice(b"abcXYZ019 \n") for _ in range(rng.randint(0, 4)))
 
 
 class Step:
@@ -372,7 +415,15 @@ def _gen_op(rng, pool):
         return ("scandir", H.gen_path(rng, pool, NAMES))
     if r < 0.09:
         return ("validatepath", H.gen_path(rng, pool, NAMES))
-    if r < 0.17:  # a file moved/copied to a fresh name in an existing directory (often across members)
+    if r < 0.19:
+        files = [e[1] for e in pool if e[0] == "F"]
+        path = H.spell(rng, rng.choice(files)) if files and rng.random() < 0.6 else H.gen_path(rng, pool, NAMES)
+        return ("open", path, rng.choice(OPEN_MODES), None if rng.random() < 0.3 else gen_ascii(rng))
+    if r < 0.23:
+        k = rng.choice(["readtext", "download", "writetext"])
+        path = H.gen_path(rng, pool, NAMES)
+        return (k, path, gen_ascii(rng)) if k == "writetext" else (k, path)
+    if r < 0.31:  # a file moved/copied to a fresh name in an existing directory (often across members)
         files = [e[1] for e in pool if e[0] == "F"]
         dirs = [e[1] for e in pool if e[0] == "D"] + [""]
         if files:
@@ -617,7 +668,8 @@ def oracle_multi(s, inner_at_pre):
         return bad
     order = multi_order(s)
     ch = changed_members(s)
-    creating = name in CREATING or (name == "openbin" and writable_mode(s.op[2]) and _mode_ok(s.op[2]))
+    creating = name in CREATING or (name in ("openbin", "open") and writable_mode(s.op[2]) and _mode_ok(s.op[2]))
+    reading = name in READS or (name == "open" and not writable_mode(s.op[2]) and _mode_ok(s.op[2]))
     if creating:
         for j in ch:
             if j != s.write:
@@ -653,7 +705,7 @@ def oracle_multi(s, inner_at_pre):
             if want is None or got != want:
                 bad.append("%s wrote %r to the write member; the highest-priority member containing the source (%r) holds %r"
                            % (name, got, holder, want))
-    if name in READS or name in ("listdir", "scandir"):
+    if reading or name in ("listdir", "scandir"):
         if ch:
             bad.append("read %s changed members %r" % (name, ch))
         exp = None
@@ -1008,7 +1060,11 @@ DIRECTED = [
       "trees": [[], [["F", "x", "in-a"]], [["F", "x", "in-ab"]]]},
      [("readbytes", "/ab/x"), ("readbytes", "a/x"), ("writebytes", "ab/y", b"1"), ("listdir", "/"), ("exists", "/abx"),
       ("makedirs", "/ab/p/q", False), ("move", "a/x", "ab/z", False), ("copy", "ab/x", "top", True), ("removedir", "/a"),
-      ("removedir", "a/.."), ("openbin", "a/x", "z"), ("removetree", "/"), ("exists", "a/../..")]),
+      ("removedir", "a/.."), ("openbin", "a/x", "z"),
+      ("open", "ab/x", "r+", b"Z"), ("open", "ab/new", "x", b"n"), ("open", "ab/x", "a", b"+"), ("open", "/top2", "wt", b"t"),
+      ("open", "ab/x", "rw", None), ("open", "ab/x", "rb", None), ("open", "ab/x", "r+t", b"01"), ("readtext", "ab/x"),
+      ("download", "ab/x"), ("writetext", "ab/t", b"txt"), ("open", "ab/x", "rb+", None),
+      ("removetree", "/"), ("exists", "a/../..")]),
     ({"kind": "mount", "auto_close": True, "mounts": ["/a/b", "/a"],
       "trees": [[], [["F", "inner", "i"]], [["F", "outer", "o"], ["D", "b"], ["F", "b/hidden", "h"]]]},
      [("listdir", "/a"), ("listdir", "/a/b"), ("readbytes", "/a/b/inner"), ("exists", "/a/b/hidden"), ("readbytes", "a/outer"),
@@ -1018,7 +1074,12 @@ DIRECTED = [
     ({"kind": "multi", "auto_close": True, "adds": [["lo", 0, False], ["w", 0, True], ["hi", 5, False]],
       "trees": [[["F", "f", "lo"], ["F", "only-lo", "x"], ["D", "d"]], [["F", "f", "w"], ["D", "d"], ["F", "d/w", "1"]],
                 [["F", "f", "hi"], ["D", "d"], ["F", "d/w", "2"], ["F", "d/h", "3"]]]},
-     [("readbytes", "f"), ("listdir", "d"), ("listdir", "/"), ("remove", "only-lo"), ("remove", "f"), ("writebytes", "f", b"new"),
+     [("readbytes", "f"), ("listdir", "d"), ("listdir", "/"),
+      # `open` routes by check_writable(mode): "+" is a writing mode even for a file that only a read layer holds
+      ("open", "only-lo", "r+", b"Z"), ("open", "only-lo", "r+b", None), ("open", "only-lo", "rt", None),
+      ("open", "f", "r+t", b"Q"), ("open", "f", "rb+", b"12"), ("open", "only-lo", "a", b"+"), ("open", "newx", "x", b"n"),
+      ("open", "f", "w", b"W"), ("readtext", "only-lo"), ("download", "f"), ("writetext", "wt", b"t"),
+      ("remove", "only-lo"), ("remove", "f"), ("writebytes", "f", b"new"),
       ("appendbytes", "only-lo", b"+"), ("isempty", "d"), ("move", "only-lo", "moved", False), ("copy", "f", "g", False),
       ("makedirs", "p/q", False), ("removedir", "d"), ("openbin", "f", "r+"), ("openbin", "f", "rt"), ("openbin", "f", "zz"),
       ("scandir", "d"), ("create", "f", False), ("touch", "only-lo"), ("removetree", "d"), ("copydir", "d", "e", True)]),
@@ -1031,7 +1092,9 @@ DIRECTED = [
      [("listdir", "b"), ("scandir", "b"), ("isempty", "b"), ("isfile", "b"), ("readbytes", "b"), ("listdir", "")]),
     ({"kind": "multi", "auto_close": False, "adds": [["a", 0, False], ["b", 0, False]],
       "trees": [[["F", "f", "first"]], [["F", "f", "second"], ["D", "d"]]]},
-     [("readbytes", "f"), ("writebytes", "g", b""), ("makedir", "..", False), ("create", "f", False), ("create", "g", False),
+     [("readbytes", "f"), ("open", "f", "r+", b"Z"), ("open", "f", "rb+", None), ("open", "f", "r+t", b"z"), ("open", "f", "r", None),
+      ("open", "g", "w", b"x"), ("open", "f", "a", b"x"), ("open", "g", "x", None), ("writetext", "f", b"t"),
+      ("writebytes", "g", b""), ("makedir", "..", False), ("create", "f", False), ("create", "g", False),
       ("touch", "f"), ("settimes", "f"), ("copy", "f", "h", False), ("move", "f", "h", False), ("remove", "f"),
       ("removedir", "d"), ("openbin", "f", "w"), ("makedirs", "x/y", True), ("appendbytes", "f", b"z")]),
 ]
@@ -1063,7 +1126,7 @@ def judge_all(rep, drv, steps):
     replies = drv.batch([request(s) for s in steps])
     for s, r in zip(steps, replies):
         inner = None
-        if s.kind == "multi" and not s.closed and (s.op[0] in READS or s.op[0] in ("listdir", "scandir")):
+        if s.kind == "multi" and not s.closed and (s.op[0] in READS or s.op[0] in ("listdir", "scandir", "open")):
             inner = []
             for t in s.pre:
                 f = MemoryFS()
@@ -1099,8 +1162,8 @@ def run(rep, tier, seed, deep=False):
         "mounting an outer path after an inner one is accepted by the code (only the new-inside-existing direction is "
         "refused); MultiFS.remove/removedir act on the member that contains the path (the property constrains creating "
         "and writing calls only): both are modelled as coded",
-        "timestamps are not compared; geturl/getsyspath/hasurl/download/readtext/writetext route like their siblings "
-        "and are not exercised",
+        "timestamps are not compared; desc/getsyspath/geturl/hasurl/hassyspath/which/get_fs are not modelled "
+        "and not exercised (open, readtext, download, writetext are)",
     ]
     try:
         exhaustive_mount(rep, drv, tier)
@@ -1134,7 +1197,7 @@ def replay(rep, case):
     cfg = c["config"]
     comp = Composite(cfg, trees=c["pre_trees"])
     try:
-        op = H.fix_op_bytes(tuple(c["op"]))
+        op = fix_op(c["op"])
         if c.get("closed"):
             comp.top.close()
             del comp.log[:]
